@@ -577,3 +577,91 @@ pub fn check_structure(xot: &Xot, snap: &Snap, consolidation_never_off: bool) ->
     }
     Ok(())
 }
+
+
+/// Build an abstract tree through a construction order drawn from the case:
+/// children left-to-right via `append`, right-to-left via `prepend`,
+/// right-to-left via `insert_before`, or all built unattached first and then
+/// appended (bottom-up); declarations and attributes through the map views or
+/// as free-standing nodes appended afterwards. The abstract tree must be
+/// normalised (no empty / adjacent text), so consolidation cannot interfere.
+pub fn build_ordered(xot: &mut Xot, a: &ANode, src: &mut crate::engine::Src, orders: &mut Vec<u8>) -> Result<Node, String> {
+    let holder = match a {
+        ANode::Document(_) => xot.new_document(),
+        ANode::Element(e) => {
+            let id = name_id(xot, &e.name);
+            let el = xot.new_element(id);
+            let node_style = src.bool();
+            for (p, u) in &e.decls {
+                let p = xot.add_prefix(p);
+                let u = xot.add_namespace(u);
+                if node_style {
+                    let n = xot.new_namespace_node(p, u);
+                    xot.append_namespace_node(el, n).map_err(|e| e.to_string())?;
+                } else {
+                    xot.namespaces_mut(el).insert(p, u);
+                }
+            }
+            for (q, v) in &e.attrs {
+                let id = name_id(xot, q);
+                if node_style {
+                    let n = xot.new_attribute_node(id, v.clone());
+                    xot.any_append(el, n).map_err(|e| e.to_string())?;
+                } else {
+                    xot.set_attribute(el, id, v.clone());
+                }
+            }
+            el
+        }
+        ANode::Text(t) => return Ok(xot.new_text(t)),
+        ANode::Comment(t) => return Ok(xot.new_comment(t)),
+        ANode::PI(t, d) => {
+            let id = xot.add_name(t);
+            return Ok(xot.new_processing_instruction(id, d.as_deref()));
+        }
+        other => return Err(format!("build_ordered: cannot build {:?}", other)),
+    };
+    let ch = a.children();
+    let order = src.choice(4) as u8;
+    orders.push(order);
+    match order {
+        0 => {
+            for c in ch {
+                let n = build_ordered(xot, c, src, orders)?;
+                xot.append(holder, n).map_err(|e| e.to_string())?;
+            }
+        }
+        1 => {
+            for c in ch.iter().rev() {
+                let n = build_ordered(xot, c, src, orders)?;
+                xot.prepend(holder, n).map_err(|e| e.to_string())?;
+            }
+        }
+        2 => {
+            let mut next: Option<Node> = None;
+            for c in ch.iter().rev() {
+                let n = build_ordered(xot, c, src, orders)?;
+                match next {
+                    Some(nx) => xot.insert_before(nx, n).map_err(|e| e.to_string())?,
+                    None => xot.append(holder, n).map_err(|e| e.to_string())?,
+                }
+                next = Some(n);
+            }
+        }
+        _ => {
+            let mut built = vec![];
+            for c in ch {
+                built.push(build_ordered(xot, c, src, orders)?);
+            }
+            let mut prev: Option<Node> = None;
+            for n in built {
+                match prev {
+                    Some(p) => xot.insert_after(p, n).map_err(|e| e.to_string())?,
+                    None => xot.append(holder, n).map_err(|e| e.to_string())?,
+                }
+                prev = Some(n);
+            }
+        }
+    }
+    Ok(holder)
+}
